@@ -80,6 +80,9 @@ M3 = {"quick": {"C09": (3, 6, 40), "C08": (2, 6, 30)}, "thorough": {"C09": (30, 
 # free workloads while servers crash and restart at random (runs, goroutines, calls)
 M3F = {"quick": {"C09": (6, 6, 40), "C10": (8, 6, 40)}, "thorough": {"C09": (60, 8, 60), "C10": (80, 8, 60)}}
 REPS = {"quick": 1, "thorough": 5}
+# free workloads recorded with every event and validated at transport level (ChannelTrace): (runs, with faults)
+TFREE = {"quick": {"C08": (4, False), "C09": (4, True), "C10": (4, True)},
+         "thorough": {"C08": (30, False), "C09": (40, True), "C10": (40, True), "C12": (20, False)}}
 LIFE_TCFG = "SPECIFICATION TSpec\nPOSTCONDITION Accepted\nCHECK_DEADLOCK FALSE\n"
 RE_BAD = re.compile(r'<<"BAD", (\d+), (\d+), "(\w+)">>')
 
@@ -134,6 +137,13 @@ def check(prop, tier, seed, replay):
         devs = sorted(k["key"] for k in opens)
         if replay:
             rp = json.load(open(replay))
+            if rp.get("scenario") == "m3t":
+                _, fconf, _, _, _, _ = check_chan.free_check(prop, work, rp.get("seed", seed), 6, bool(rp.get("faults")))
+                if fconf:
+                    log("VIOLATION property=%s replay=%s" % (prop, replay))
+                    return 1
+                log("replay accepted")
+                return 0
             if rp.get("chan"):
                 t1, a1 = os.path.join(work, "re.ndjson"), os.path.join(work, "re-all.ndjson")
                 for _ in range(2):
@@ -269,6 +279,18 @@ def check(prop, tier, seed, replay):
                 path = next_replay_path(prop)
                 json.dump(rec, open(path, "w"), indent=1)
                 reported.append(path)
+        # 4. small free workloads, every transport event of every node against Channel.tla (ChannelTrace)
+        tfree = {"node_traces": 0, "events": 0, "calls": 0, "unconfirmed": 0}
+        if prop in TFREE[tier]:
+            fruns, ffaults = TFREE[tier][prop]
+            facc, fconf, funconf, fstates, fev, fcalls = check_chan.free_check(prop, work, seed, fruns, ffaults)
+            tstates += fstates
+            tfree = {"node_traces": facc, "events": fev, "calls": fcalls, "unconfirmed": funconf, "faults": ffaults}
+            for hdr, line, why, clines in fconf[:3]:
+                path = next_replay_path(prop)
+                json.dump({"property": prop, "scenario": "m3t", "chan": True, "faults": ffaults, "seed": seed, "line": line,
+                           "reason": why, "trace": clines[max(0, line - 40):line + 1]}, open(path, "w"), indent=1)
+                reported.append(path)
         samples = [json.loads(x) for x in lines[:6]]
         cov = {"states": states, "transitions": trans, "traces_validated_against_impl": nscen - len(bad),
                "evaluations": nscen + m3calls + m3fcalls, "distinct_nontrivial": nscen,
@@ -282,7 +304,7 @@ def check(prop, tier, seed, replay):
                "samples": samples, "design_level": design, "deviations_enabled": devs, "trace_states": tstates,
                "m3_calls": m3calls, "m3_fault_calls": m3fcalls,
                "transport_level": {"accepted": cacc, "rejected": len(crej), "not_projected": len(cskip),
-                                   "unconfirmed": chan_unconfirmed},
+                                   "unconfirmed": chan_unconfirmed, "free_workloads": tfree},
                "unconfirmed_rejections": unconfirmed}
         write_evidence(prop, tier, seed, "model_checking", cov, time.time() - t0, len(reported),
                        ["liveness is read as safety over quiescent states: no library step enabled (model) / no library "
